@@ -76,8 +76,9 @@ Op(e) ==
       [] e.a = "ProbeRequestLoans" -> ProbeRequestLoans(e.c) /\ R(e) /\ out'.v = e.v
       [] e.a = "ReceiveRequest" ->
             ReceiveRequest(e.s) /\ R(e)
+            \* v: ActiveRequest::is_connected right after the receive (2: not observed - concurrent executions)
             /\ (e.r = "some" => /\ e.ok = 1 /\ out'.s = e.c /\ out'.n = e.n /\ out'.ch = e.ch
-                                /\ out'.v = e.v)
+                                /\ (e.v = 2 \/ out'.v = e.v))
       [] e.a = "HasRequests" -> HasRequests(e.s) /\ R(e)
       [] e.a = "LoanResponse" ->
             LoanResponse(e.s, e.c, e.n) /\ R(e) /\ (e.r = "ok" => out'.j = e.j /\ out'.x = e.x)
